@@ -282,6 +282,47 @@ class FieldAccess(object):
             out.setdefault(s.fn.path, []).append(s)
         return out
 
+    def overwriters(self, adt, field):
+        """functions that replace the whole value of the field: a direct assignment to it, or a mutable borrow of it
+        handed to core::mem::replace / swap / take or ptr::write"""
+        out = {}
+        for s in self.stores.get((adt, field), []):
+            if s.kind == "store":
+                out.setdefault(s.fn.path, []).append(s)
+        for s in self.mutrefs.get((adt, field), []):
+            fn = s.fn
+            for body in iter_bodies(fn):
+                refs = set()
+                for b in body["blocks"]:
+                    for st in b["s"]:
+                        if st[0] == "=" and st[2][0] == "ref" and len(st[2]) > 2 and st[2][2] and not st[1]["p"]:
+                            ch = place_field_chain(self.prog, fn, body, st[2][1])
+                            if ch and ch[-1][0] == adt and ch[-1][2] == field:
+                                refs.add(st[1]["l"])
+                # copies of the reference (reborrows / moves)
+                changed = True
+                while changed:
+                    changed = False
+                    for b in body["blocks"]:
+                        for st in b["s"]:
+                            if st[0] == "=" and not st[1]["p"] and st[1]["l"] not in refs:
+                                rv = st[2]
+                                src = None
+                                if rv[0] == "use" and rv[1][0] in ("cp", "mv") and not rv[1][1]["p"]:
+                                    src = rv[1][1]["l"]
+                                elif rv[0] == "ref" and rv[1]["p"] == [["d"]]:
+                                    src = rv[1]["l"]
+                                if src in refs:
+                                    refs.add(st[1]["l"])
+                                    changed = True
+                for b in body["blocks"]:
+                    t = b["t"]
+                    if t["k"] == "call" and any(x.startswith(("core::mem::replace", "core::mem::swap", "core::mem::take", "core::ptr::write"))
+                                                for x in call_targets(self.prog, fn, t)):
+                        if any(a[0] in ("cp", "mv") and not a[1]["p"] and a[1]["l"] in refs for a in t["args"]):
+                            out.setdefault(fn.path, []).append(s)
+        return out
+
     def readers(self, adt, field):
         out = {}
         for s in self.reads.get((adt, field), []):
